@@ -129,6 +129,12 @@ func (m *definitionGenerator) Generate() error {
 		return dumpData(swag.ToDynamicJSON(mod))
 	}
 
+	if mod.External {
+		// the type is provided by the user (x-go-type): nothing to generate, and nothing to overwrite
+		log.Println("skipped external model", m.Name)
+		return nil
+	}
+
 	if m.opts.IncludeModel {
 		log.Println("including additional model")
 		if err := m.generateModel(mod); err != nil {
